@@ -80,6 +80,12 @@ def make_query(name: str, arity: int, position: str) -> str:
         if name in ("ldexp", "scalbn", "scalbln") and arity == 2:
             args[1] = "2"
         return f"ds.Select(lambda e: {name}({', '.join(args)}))"
+    if position == "deref" and name != "nan":
+        # the argument is a method reached through a dereference (declared with deref_count 1: emitted as (*obj)->dpt()): the
+        # whole of it is the function's argument
+        args = arg_exprs(name, arity)
+        args[0] = "m.dpt()"
+        return f'ds.Select(lambda e: e.Muons("muons").Select(lambda m: {name}({", ".join(args)})))'
     call = f"{name}({', '.join(arg_exprs(name, arity))})"
     if position == "nested" and name != "nan":
         # a documented function whose arguments are themselves documented functions, inside another one
@@ -114,8 +120,13 @@ def query_code_of(backend: str, files: Dict[str, Any]) -> Tuple[str, str]:
 
 def run_trace(backend: str, name: str, arity: int, position: str):
     src = make_query(name, arity, position)
+    md = None
+    if position == "deref":
+        from .. import qgen as _qg
+        md = [{"metadata_type": "add_method_type_info", "type_string": _qg.Universe(backend).colls["Muons"][1], "method_name": "dpt",
+               "return_type": "double", "deref_count": 1}]
     try:
-        a = impl.query_ast(src)
+        a = impl.query_ast(src, md)
     except Exception as e:  # noqa: BLE001
         return src, ("error", "query-construction:" + type(e).__name__, str(e)[:200])
     r = impl.translate(backend, a)
@@ -170,7 +181,7 @@ def check(tier: str, seed: int, t0: float, build: core.BuildStatus) -> int:
             audit = [[n, "?", [], "false", []] for n in parse_readme()]
         except Exception:  # noqa: BLE001
             audit = []
-    positions = ["alone", "arith", "intarg", "literal", "nested", "first", "pair", "shadow"]
+    positions = ["alone", "arith", "intarg", "literal", "nested", "first", "pair", "shadow", "deref"]
     smodel = core.Model() if build.model_ok else None
     distinct = set()
     per_name: Dict[str, Dict[str, Any]] = {}
@@ -223,6 +234,15 @@ def check(tier: str, seed: int, t0: float, build: core.BuildStatus) -> int:
                         oc.violations.append(core.Violation(
                             key=f"c12:first-arg-scope:{name}", what=f"1 + {name}(<value of First()>) on {backend}: the emitted code is not well-scoped ({bad_scope[0][:120]})",
                             replay={**replay, "static_checker": bad_scope[:4]}))
+                        continue
+                if pos == "deref" and name != "nan":
+                    inner = call_args(text, want[0])
+                    if not inner or not any("dpt()" in a and a.count("(") == a.count(")") for a in inner):
+                        oc.violations.append(core.Violation(
+                            key=f"c12:argument-cut:{name}",
+                            what=f"{name}(m.dpt(), ..) with dpt reached through a dereference on {backend}: the text between the parentheses of {want[0]}( is {inner}, "
+                                 "the method call is not (wholly) the function's argument",
+                            replay=replay))
                         continue
                 if pos == "pair" and name != "nan" and arity != 3:
                     oth = "std::" + partner(name, n_query_args)
@@ -298,7 +318,12 @@ def replay(path: str, build: core.BuildStatus) -> int:
         print("broken obligation recorded:", data.get("broken"))
         print("proof status now:", ps.broken or "all theorems check")
         return 1 if ps.broken else 0
-    a = impl.query_ast(data["query"])
+    md = None
+    if "m.dpt()" in data["query"]:
+        from .. import qgen as _qg
+        md = [{"metadata_type": "add_method_type_info", "type_string": _qg.Universe(data["backend"]).colls["Muons"][1], "method_name": "dpt",
+               "return_type": "double", "deref_count": 1}]
+    a = impl.query_ast(data["query"], md)
     r = impl.translate(data["backend"], a)
     if r[0] == "error":
         print("implementation refuses:", r[1], r[2])
@@ -309,7 +334,13 @@ def replay(path: str, build: core.BuildStatus) -> int:
     print("emitted calls:", calls)
     name = data["name"]
     acceptable = {f"std::{name}"} | ({"std::log"} if name == "ln" else set()) | ({"std::fabs", "std::abs"} if name == "abs" else set())
-    if not [c for c in calls if c in acceptable] or name in KNOWN_UNUSABLE:
+    want = [c for c in calls if c in acceptable]
+    cut = False
+    if md is not None and want:
+        inner = call_args(text, want[0])
+        print("arguments of", want[0], ":", inner)
+        cut = not any("dpt()" in x and x.count("(") == x.count(")") for x in inner)
+    if not want or name in KNOWN_UNUSABLE or cut:
         print(f"VIOLATION property={PID} replay={path}")
         return 1
     print("property holds on this input")
